@@ -484,6 +484,10 @@ func rangeScan[K nodeKey, V any, L nodeLeaf[V]](
 	}
 
 	return func(yield func(K, V) bool) {
+		if root.pointer == nil {
+			return
+		}
+
 		var q []nodeRef
 
 		depth := 0
